@@ -15,9 +15,11 @@ through ppci.api.cc at -O0 and -O2.  Every function is compiled on its own
 target cannot select ("Tree ... not covered" etc.) costs only itself; such
 build failures are outside C06 and only counted.
 
-Narrowing (stated): m68k cannot select code for any function of this workload
-(NotImplementedError in M68kArch.move / uncovered constants), so no m68k frame
-reaches the allocator; the floors demand frames from the other 11 targets.
+Narrowing (stated): m68k cannot select code for almost any function of this
+workload (NotImplementedError in M68kArch.move / uncovered constants; the few
+frames that reach the allocator are trivial or run into the watchdog), so the
+floors demand frames from the other 11 targets only.  A compilation that
+exceeds the per-function watchdog is discarded and counted.
 Allocator exceptions (give-up after 30 spill rounds, assertion in
 freeze_moves, KeyError in has_edge on msp430) abort the frame before colours
 exist; they are C29's events and only counted here.
@@ -47,7 +49,7 @@ ASSUMPTIONS = ["ppci's own use/def/clobber/jumps annotations of instructions are
 MANIFEST_ENTRY = {
     "text": "An independent liveness/alias/spill-slot checker judges every frame the real allocator colours while "
             "generated high-pressure programs are compiled for 12 targets.",
-    "note": "Only conflicts involving at least one virtual register are reported; m68k yields no frames (backend "
+    "note": "Only conflicts involving at least one virtual register are reported; m68k yields almost no frames (backend "
             "cannot select the workload); allocator crashes are counted, not judged (C29).",
     "technique": "runtime monitoring: independent dataflow checker over snapshots taken in remove_redundant_moves/alloc_frame",
 }
@@ -197,7 +199,7 @@ class Mon:
         self.obs = {"frames_by_target": {}, "frames_with_spills": 0, "frames_with_coalesced_moves": 0,
                     "removed_moves_checked": 0, "alias_pairs": 0, "definitions_checked": 0, "clobbers_checked": 0,
                     "spill_loads": 0, "spill_stores": 0, "slots": 0, "instructions": 0, "virtual_registers": 0,
-                    "largest_frame": 0, "input_undefined_registers": 0, "functions_attempted": {}, "workload": {}}
+                    "largest_frame": 0, "input_undefined_registers": 0, "nonstrict_skipped": 0, "nonstrict_skipped": 0, "functions_attempted": {}, "workload": {}}
         self.disc = {}
         self.samples = []
         self.context = None
@@ -230,11 +232,14 @@ def listing(snap, around=None, width=14):
 
 def make_on_result(mon, target):
     def on_result(frame, findings, stats, snap):
+        if stats.get("skipped_flow_incomplete"):
+            mon.discard("frame-lost-block-terminator-not-judged:%s" % target)
+            return
         mon.evals += 1
         o = mon.obs
         mon.bump(o["frames_by_target"], target)
         for k in ("alias_pairs", "definitions_checked", "clobbers_checked", "spill_loads", "spill_stores", "slots",
-                  "instructions", "virtual_registers", "input_undefined_registers"):
+                  "instructions", "virtual_registers", "input_undefined_registers", "nonstrict_skipped"):
             o[k] += stats.get(k, 0)
         o["removed_moves_checked"] += stats.get("removed_moves", 0)
         if stats.get("slots"):
@@ -275,13 +280,15 @@ def setup():
 
 
 def compile_each(mon, api, cm, m, arch, target):
-    from checks.c29 import compile_subset
+    from checks.c29 import compile_subset, Avoided
 
     for f in list(m.functions):
         mon.bump(mon.obs["functions_attempted"], target)
         before = mon.evals
-        e = compile_subset(api, m, arch, [f])
-        if e is not None:
+        e = compile_subset(api, m, arch, [f], budget=60 if target in MATURE else 25)
+        if e is not None and isinstance(e, Avoided):
+            mon.discard("%s:%s" % (e, target))
+        elif e is not None:
             mech = cm.failure_mechanism(e)[0]
             where = "allocator-raised" if any(x in mech for x in ("alloc_frame", "freeze_moves", "has_edge", "assign_colors", "combine", "rewrite_program", "pattern_fprel")) else "build-failed"
             mon.discard("%s:%s:%s" % (where, target, mech[:60]) if where == "allocator-raised" else "%s:%s" % (where, target))
@@ -326,6 +333,10 @@ def run_shard(spec):
             cfg, simple = irgen_cfg(r, target, types, ptr_size, idx)
             try:
                 m, info = irgen.gen_module(r, cfg)
+                if not immature:
+                    # rewrite constructs the target is known not to select (C29 findings): more frames reach the allocator
+                    from checks import c29
+                    cm.neutralise(m, c29.deny_for(target, sorted(c29.FINDINGS)), "i32")
                 pressure = r.choice([0, 6, 12, 24])
                 if pressure:
                     cm.add_pressure(m, r, pressure, ptr_size, fold_op="+" if immature else "^")
@@ -380,11 +391,21 @@ def run_shard(spec):
                 mon.bump(mon.obs["workload"], "c-compilations")
                 mon.bump(mon.obs["functions_attempted"], target)
                 before = mon.evals
+                import signal
+                from checks.c29 import Watchdog, _on_alarm
+                old_handler = signal.signal(signal.SIGALRM, _on_alarm)
+                signal.setitimer(signal.ITIMER_REAL, 60)
                 try:
                     api.cc(io.StringIO(src), arch, opt_level=level)
+                except Watchdog:
+                    mon.discard("watchdog-timeout:%s" % target)
+                    continue
                 except Exception as e:  # noqa
                     mon.discard("c-build-failed:%s" % target)
                     continue
+                finally:
+                    signal.setitimer(signal.ITIMER_REAL, 0)
+                    signal.signal(signal.SIGALRM, old_handler)
                 if mon.evals == before:
                     mon.discard("no-frame:%s" % target)
     return {"evaluations": mon.evals, "nontrivial_hashes": mon.hashes, "observed": mon.obs, "discarded": mon.disc,
